@@ -214,3 +214,31 @@ func Time(label string) time.Time {
 	sec, nsec := new(big.Int).DivMod(ns, big.NewInt(1000000000), new(big.Int))
 	return time.Unix(sec.Int64(), nsec.Int64()).UTC()
 }
+
+// UFStr applies a named uninterpreted String function (see engine table). Native replay uses
+// the registered native implementation.
+func UFStr(name string, args ...string) string {
+	if f, ok := NativeUF[name]; ok {
+		return f(args...)
+	}
+	panic("verif.UFStr: no native implementation for " + name)
+}
+
+// UFBool applies a named uninterpreted predicate.
+func UFBool(name string, args ...string) bool {
+	if f, ok := NativeUFBool[name]; ok {
+		return f(args...)
+	}
+	panic("verif.UFBool: no native implementation for " + name)
+}
+
+// NativeUF / NativeUFBool: native implementations of the uninterpreted functions.
+var NativeUF = map[string]func(args ...string) string{}
+var NativeUFBool = map[string]func(args ...string) bool{}
+
+// Param returns a run parameter (environment variable GOSYM_PARAM_<name>), "" if unset.
+func Param(name string) string { return os.Getenv("GOSYM_PARAM_" + name) }
+
+// NoSummaries makes the executor run the library's random-code generators from their real
+// bodies instead of their contracts (used by the kernels that check those generators).
+func NoSummaries() {}
